@@ -101,6 +101,11 @@ package rux
 //
 //@ func (*Context).Init [C10, C08]
 //@   modifies c.writer.status, c.writer.length, c.writer.Writer, c.Req, c.index, c.data, c.Resp, c.Params, c.handlers, c.Errors
+//@   modifies started(c), aborted(c), hookCalls(c)
+//@   ghostset started(c) = 0
+//@   ghostset aborted(c) = false
+//@   ghostset hookCalls(c) = 0
+//@   ensures per_request_ghosts_reset: started(c) == 0 && !aborted(c) && hookCalls(c) == 0
 //@   ensures pristine: pristine(c)
 //@   ensures bound: c.Req == r && c.writer.Writer == w
 //@   ensures[C08] writer_inv: freshWriter(w) ==> wInv(&c.writer)
@@ -149,10 +154,14 @@ package rux
 //@ functype HandlerFunc(self, c)
 //@   requires[C04] in_order: 0 <= c.index && c.index < len(c.handlers) && self == c.handlers[c.index] && started(c) == c.index
 //@   requires chainInv(c) && !aborted(c)
-//@   modifies c.index, c.data, c.Errors, c.Req, c.Resp, c.Params, started(c), aborted(c)
+//@   modifies c.index, c.data, entries(c.data), c.Errors, c.Req, c.Resp, c.Params, started(c), aborted(c)
 //@   modifies c.writer.status, c.writer.length, hdrCalls(c.writer.Writer), hdrStatus(c.writer.Writer), body(c.writer.Writer), early(c.writer.Writer)
 //@   panics *
+//@   xensures chainInv(c) && (c.data == old(c.data) || fresh(c.data)) && (old(aborted(c)) ==> aborted(c))
+//@   xensures old(wInv(&c.writer)) ==> wInv(&c.writer)
+//@   xensures old(c.writer.length) >= 0 ==> c.writer.length >= old(c.writer.length) && hdrStatus(c.writer.Writer) == old(hdrStatus(c.writer.Writer))
 //@   ensures chainInv(c) && c.index <= 126
+//@   ensures c.data == old(c.data) || fresh(c.data)
 //@   ensures (c.index == old(c.index) && started(c) == old(started(c)) + 1)
 //@        || (c.index >= len(c.handlers) && (c.index >= 63 || started(c) == len(c.handlers)) && started(c) >= old(started(c)) + 1)
 //@   ensures old(wInv(&c.writer)) ==> wInv(&c.writer)
@@ -160,14 +169,18 @@ package rux
 //
 //@ func (*Context).Next [C04, C05]
 //@   requires chainInv(c) && cursorOK(c) && c.index <= 126
-//@   modifies c.index, c.data, c.Errors, c.Req, c.Resp, c.Params, started(c), aborted(c)
+//@   modifies c.index, c.data, entries(c.data), c.Errors, c.Req, c.Resp, c.Params, started(c), aborted(c)
 //@   modifies c.writer.status, c.writer.length, hdrCalls(c.writer.Writer), hdrStatus(c.writer.Writer), body(c.writer.Writer), early(c.writer.Writer)
 //@   panics *
+//@   xensures chainInv(c) && (c.data == old(c.data) || fresh(c.data)) && (old(aborted(c)) ==> aborted(c))
+//@   xensures old(wInv(&c.writer)) ==> wInv(&c.writer)
+//@   xensures old(c.writer.length) >= 0 ==> c.writer.length >= old(c.writer.length) && hdrStatus(c.writer.Writer) == old(hdrStatus(c.writer.Writer))
 //@   ensures inv: chainInv(c)
 //@   ensures exhausted: c.index >= len(c.handlers) && c.index >= old(c.index) + 1
 //@   ensures[C04] all_ran: c.index >= 63 || started(c) == len(c.handlers)
 //@   ensures[C05] no_start_after_abort: old(c.index) + 1 >= len(c.handlers) ==> started(c) == old(started(c))
 //@   ensures[C05] abort_sticky: old(aborted(c)) ==> aborted(c)
+//@   ensures data_map: c.data == old(c.data) || fresh(c.data)
 //@   ensures[C08] writer_inv: old(wInv(&c.writer)) ==> wInv(&c.writer)
 //@   ensures[C08] committed_status_kept: old(c.writer.length) >= 0 ==> c.writer.length >= old(c.writer.length) && hdrStatus(c.writer.Writer) == old(hdrStatus(c.writer.Writer))
 //@ loop (*Context).Next #0
@@ -175,6 +188,7 @@ package rux
 //@   invariant cursor: c.index >= 63 || started(c) == min(c.index, len(c.handlers))
 //@   invariant started_mono: started(c) >= old(started(c)) && (old(c.index) + 1 >= len(c.handlers) ==> started(c) == old(started(c)))
 //@   invariant abort_sticky: old(aborted(c)) ==> aborted(c)
+//@   invariant data_map: c.data == old(c.data) || fresh(c.data)
 //@   invariant writer_inv: old(wInv(&c.writer)) ==> wInv(&c.writer)
 //@   invariant committed_status_kept: old(c.writer.length) >= 0 ==> c.writer.length >= old(c.writer.length) && hdrStatus(c.writer.Writer) == old(hdrStatus(c.writer.Writer))
 //
@@ -518,3 +532,106 @@ package rux
 //@   ensures group_middleware_restored: r.currentGroupHandlers == old(r.currentGroupHandlers)
 //@       && (forall i int :: 0 <= i && i < len(r.currentGroupHandlers) ==> r.currentGroupHandlers[i] == old(r.currentGroupHandlers[i]))
 //@   ensures global_middleware_untouched: r.handlers == old(r.handlers) && (forall i int :: 0 <= i && i < len(r.handlers) ==> r.handlers[i] == old(r.handlers[i]))
+
+// ---------------------------------------------------------------------------
+// Dispatch (C03, C04, C08, C09, C10)
+//
+// isReg(rt): rt was accepted by appendRoute of some router. regIdx(rt): its registration stamp.
+//@ ghost isReg(ref) bool
+//@ ghost regIdx(ref) int
+// lastRoute(r) / lastAlm(r): the result of the most recent QuickMatch on r (specification device that lets
+// the dispatcher's postcondition name the route it dispatched to). hookCalls(c): OnPanic invocations for c.
+//@ ghost lastRoute(ref) ref
+//@ ghost lastAlm(ref) int
+//@ ghost hookCalls(ref) int
+//
+//@ spec routeOK(rt *Route) bool = rt.handler != nil && len(rt.handlers) < 63
+//@ spec withinLimit(r *Router, n int) bool = len(r.handlers) + n <= 63
+//
+//@ extern (*net/url.URL).EscapedPath(u) (s)
+//@   pure
+//@   ensures s == uf("escapedPath", string, u)
+//
+//@ extern (*sync.Pool).Get(p) (x)
+//@   modifies allfields(Context)
+//@   ensures hastype(x, *Context) && cast(x, *Context) != nil
+//@   ensures forall c *Context :: c != cast(x, *Context) && allocated(c) ==> c.index == old(c.index)
+//@ extern (*sync.Pool).Put(p, x)
+//@   pure
+//
+//@ func (*Context).Set [C09, C03]
+//@   modifies c.data, entries(c.data)
+//@   ensures stored: key in c.data && c.data[key] == val && c.data != nil
+//@   ensures others_kept: old(c.data) != nil ==> c.data == old(c.data) && (forall k string :: k != key ==> (k in c.data) == old(k in c.data) && c.data[k] == old(c.data[k]))
+//@   ensures fresh_map: old(c.data) == nil ==> fresh(c.data) && (forall k string :: k != key ==> !(k in c.data))
+//
+// Summary of route lookup used by the dispatcher (refined by the table contracts of C01/C06/C07).
+//@ trusted (*Router).QuickMatch(r, method, path) (route, ps, alm)
+//@   modifies held(r.cachedRoutes.lock), entries(r.cachedRoutes.hashMap), lmem(r.cachedRoutes.list, _), rank(_), lclock(r.cachedRoutes.list), ln(r.cachedRoutes.list), lback(r.cachedRoutes.list)
+//@   modifies lastRoute(r), lastAlm(r)
+//@   ensures lastRoute(r) == route && lastAlm(r) == len(alm)
+//@   ensures route != nil ==> routeOK(route) && isReg(route) && len(alm) == 0
+//@   ensures route == nil ==> ps == nil
+//
+// Router hooks (OnPanic, OnError): ordinary user code acting through the Context API, but not part
+// of the chain. hookPanics: whether the hook itself panics (unknown to the router).
+//@ functype field:Router.OnPanic(self, c)
+//@   requires c != nil
+//@   requires[C09] recovered_value_available: "_recoverResult" in c.data && c.data["_recoverResult"] == panicval() && panicval() != nil
+//@   requires[C09] at_most_once: hookCalls(c) == 0
+//@   modifies hookCalls(c)
+//@   ensures hookCalls(c) == old(hookCalls(c)) + 1
+//@   xensures hookCalls(c) == old(hookCalls(c)) + 1
+//@   modifies c.index, c.data, entries(c.data), c.Errors, c.Req, c.Resp, c.Params, aborted(c)
+//@   modifies c.writer.status, c.writer.length, hdrCalls(c.writer.Writer), hdrStatus(c.writer.Writer), body(c.writer.Writer), early(c.writer.Writer)
+//@   panics uf("hookPanics", bool, self)
+//@   xensures (c.data == old(c.data) || fresh(c.data)) && (old(wInv(&c.writer)) ==> wInv(&c.writer))
+//@   xensures old(c.writer.length) >= 0 ==> c.writer.length >= old(c.writer.length) && hdrStatus(c.writer.Writer) == old(hdrStatus(c.writer.Writer))
+//@   ensures c.data == old(c.data) || fresh(c.data)
+//@   ensures old(wInv(&c.writer)) ==> wInv(&c.writer)
+//@   ensures old(c.writer.length) >= 0 ==> c.writer.length >= old(c.writer.length) && hdrStatus(c.writer.Writer) == old(hdrStatus(c.writer.Writer))
+//@ functype field:Router.OnError(self, c)
+//@   requires c != nil
+//@   modifies c.index, c.data, entries(c.data), c.Errors, c.Req, c.Resp, c.Params, aborted(c)
+//@   modifies c.writer.status, c.writer.length, hdrCalls(c.writer.Writer), hdrStatus(c.writer.Writer), body(c.writer.Writer), early(c.writer.Writer)
+//@   ensures c.index >= old(c.index)
+//@   panics *
+//@   xensures (c.data == old(c.data) || fresh(c.data)) && (old(wInv(&c.writer)) ==> wInv(&c.writer))
+//@   xensures old(c.writer.length) >= 0 ==> c.writer.length >= old(c.writer.length) && hdrStatus(c.writer.Writer) == old(hdrStatus(c.writer.Writer))
+//@   ensures c.data == old(c.data) || fresh(c.data)
+//@   ensures old(wInv(&c.writer)) ==> wInv(&c.writer)
+//@   ensures old(c.writer.length) >= 0 ==> c.writer.length >= old(c.writer.length) && hdrStatus(c.writer.Writer) == old(hdrStatus(c.writer.Writer))
+//
+//@ spec reqOK(c *Context) bool = c.Req != nil && c.Req.URL != nil
+//@ spec fallbackChains(r *Router) bool = withinLimit(r, max(len(r.noRoute), 1)) && withinLimit(r, max(len(r.noAllowed), 1))
+//@     && (forall rt *Route :: isReg(rt) ==> withinLimit(r, len(rt.handlers) + 1))
+//
+//@ func (*Router).handleHTTPRequest [C03, C04, C08, C09, C10]
+//@   requires ctx != nil && pristine(ctx) && wInv(&ctx.writer) && reqOK(ctx) && started(ctx) == 0 && !aborted(ctx) && hookCalls(ctx) == 0
+//@   requires within_limit: fallbackChains(r)
+//@   modifies ctx.index, ctx.data, entries(ctx.data), ctx.Errors, ctx.Req, ctx.Resp, ctx.Params, ctx.handlers, started(ctx), aborted(ctx)
+//@   modifies ctx.writer.status, ctx.writer.length, hdrCalls(ctx.writer.Writer), hdrStatus(ctx.writer.Writer), body(ctx.writer.Writer), early(ctx.writer.Writer)
+//@   modifies held(r.cachedRoutes.lock), entries(r.cachedRoutes.hashMap), lmem(r.cachedRoutes.list, _), rank(_), lclock(r.cachedRoutes.list), ln(r.cachedRoutes.list), lback(r.cachedRoutes.list)
+//@   modifies lastRoute(r), lastAlm(r), hookCalls(ctx)
+//@   panics r.OnPanic == nil || uf("hookPanics", bool, r.OnPanic)
+//@   ensures[C04] global_middleware_first: len(ctx.handlers) >= len(r.handlers) && (forall i int :: 0 <= i && i < len(r.handlers) ==> ctx.handlers[i] == r.handlers[i])
+//@   ensures[C04] then_route_chain: lastRoute(r) != nil ==> len(ctx.handlers) == len(r.handlers) + len(cast(lastRoute(r), *Route).handlers) + 1
+//@       && (forall i int :: 0 <= i && i < len(cast(lastRoute(r), *Route).handlers) ==> ctx.handlers[len(r.handlers) + i] == cast(lastRoute(r), *Route).handlers[i])
+//@       && ctx.handlers[len(ctx.handlers) - 1] == cast(lastRoute(r), *Route).handler
+//@   ensures[C04, C06] fallback_405: lastRoute(r) == nil && lastAlm(r) > 0 ==> (len(r.noAllowed) > 0 ==> len(ctx.handlers) == len(r.handlers) + len(r.noAllowed)
+//@           && (forall i int :: 0 <= i && i < len(r.noAllowed) ==> ctx.handlers[len(r.handlers) + i] == r.noAllowed[i]))
+//@       && (len(r.noAllowed) == 0 ==> len(ctx.handlers) == len(r.handlers) + 1 && ctx.handlers[len(r.handlers)] == internal405Handler)
+//@   ensures[C04, C06] fallback_404: lastRoute(r) == nil && lastAlm(r) == 0 ==> (len(r.noRoute) > 0 ==> len(ctx.handlers) == len(r.handlers) + len(r.noRoute)
+//@           && (forall i int :: 0 <= i && i < len(r.noRoute) ==> ctx.handlers[len(r.handlers) + i] == r.noRoute[i]))
+//@       && (len(r.noRoute) == 0 ==> len(ctx.handlers) == len(r.handlers) + 1 && ctx.handlers[len(r.handlers)] == internal404Handler)
+//@   ensures[C04] everyone_ran_unless_aborted_or_panicked: hookCalls(ctx) == 0 ==> ctx.index >= 63 || started(ctx) == len(ctx.handlers)
+//@   ensures[C09] hook_at_most_once: hookCalls(ctx) <= 1 && (r.OnPanic == nil ==> hookCalls(ctx) == 0)
+//@   ensures[C08] committed_once: wInv(&ctx.writer) && ctx.writer.length >= 0 && hdrCalls(ctx.writer.Writer) == 1
+
+//@ func (*Router).ServeHTTP [C03, C08, C09, C10]
+//@   requires freshWriter(res) && req != nil && req.URL != nil && fallbackChains(r)
+//@   modifies allfields(Context), allelems([]error), allelems([]HandlerFunc), started(_), aborted(_), hookCalls(_), lastRoute(r), lastAlm(r)
+//@   modifies hdrCalls(res), hdrStatus(res), body(res), early(res), allentries(M)
+//@   modifies held(r.cachedRoutes.lock), entries(r.cachedRoutes.hashMap), lmem(r.cachedRoutes.list, _), rank(_), lclock(r.cachedRoutes.list), ln(r.cachedRoutes.list), lback(r.cachedRoutes.list)
+//@   panics r.OnPanic == nil || uf("hookPanics", bool, r.OnPanic)
+//@   ensures[C08] committed_exactly_once: hdrCalls(res) == 1 && !early(res)
